@@ -114,9 +114,9 @@ def run(rep, tier):
         ('ROUTE-raises', 'the translator compiles every template route without raising'),
     ]:
         rep.rule(rid, txt)
-    found, stats, nmods = routes.run(rep, 'C06', ['CONV-', 'LOCAL-shadow', 'ENTRY-params'],
+    found, stats, nmods = routes.run(rep, 'C06', ['CONV-', 'LOCAL-shadow', 'ENTRY-params', 'ADAPTOR'],
                                      label_filter=lambda msg: msg.startswith(('templates', 'shadow', 'let', 'classes',
-                                                                              'deep-nesting')))
+                                                                              'deep-nesting', 'runtime', 'sourcer/')))
     rep.floor('route modules emitted', nmods, 26)
     rep.floor('call sites examined', stats['callsites'], 200)
     sibling_argumentize(rep)
